@@ -92,6 +92,16 @@ pub const BINDINGS: &[(&str, &str, &str)] = &[
     ("while-condition-closure", "while f(function() end) do\n  local {R} = {}\n  ", "\nend\n"),
     ("param-of-closure-argument", "f(function({R})\n  ", "\nend)\n"),
     ("local-after-nested-function", "do\n  local function _h() local _i = 1 end\n  local {R} = {}\n  ", "\nend\n"),
+    // the bound name with blanks, line breaks and comments attached to its token: the name is the token, not its trivia
+    ("param-padded", "local function _f( {R} )\n  ", "\nend\n"),
+    ("param-own-line", "local function _f(\n  _a,\n  {R}\n)\n  ", "\nend\n"),
+    ("param-commented", "local function _f({R} --[[ the library's name, re-bound ]])\n  ", "\nend\n"),
+    ("param-comment-before", "local function _f(--[[ re-bound ]] {R}, _b)\n  ", "\nend\n"),
+    ("local-padded", "do\n  local   {R}   =   {}\n  ", "\nend\n"),
+    ("local-commented", "do\n  local {R} -- re-bound\n    = {}\n  ", "\nend\n"),
+    ("generic-for-padded", "for _k ,  {R}  in pairs(t) do\n  ", "\nend\n"),
+    ("numeric-for-commented", "for {R} --[[ i ]] = 1, 2 do\n  ", "\nend\n"),
+    ("local-function-padded", "do\n  local function   {R}   () end\n  ", "\nend\n"),
 ];
 
 fn diags_of(checker: &Checker<toml::value::Value>, src: &str) -> Option<Vec<String>> {
